@@ -55,8 +55,8 @@ func stakeNewValidator(ctx sdk.Ctx, msg types.MsgStake, k keeper.Keeper) sdk.Res
 				ctx.ConsensusParams().Validator.PubKeyTypes).Result()
 		}
 	}
-	// create validator object using the message fields
-	validator := types.NewValidator(sdk.Address(msg.PubKey.Address()), msg.PubKey, msg.Value)
+	// create validator object using the message fields (nothing is staked yet: StakeValidator adds msg.Value)
+	validator := types.NewValidator(sdk.Address(msg.PubKey.Address()), msg.PubKey, sdk.ZeroInt())
 	// Set Validator Status
 	validator.Status = sdk.Unstaked
 	// check if they can stake
